@@ -107,7 +107,8 @@ Definition bop_of (s : string) : option bop :=
 Inductive ex :=
 | EInt (z : Z)
 | ECount (k : cnt)
-| EBin (o : bop) (a b : ex).
+| EBin (o : bop) (a b : ex)
+| EIdx (c : collref) (i : nat) (m : string).    (* e.Coll("bank")[i].m() : bounds-checked at(i) on the fetched collection *)
 
 Definition nm (base : string) (n : nat) : string := base +++ dec_nat n.
 
@@ -210,6 +211,11 @@ Fixpoint te (idiom : string) (e : ex) (n : nat) : list decl * stmts * cexp * nat
       let '(da, sa, ca, n1) := te idiom a n in
       let '(db, sb, cb, n2) := te idiom b n1 in
       (da ++ db, app_stmts sa sb, CBin (op_str o) ca cb, n2)
+  | EIdx c i m =>
+      ([{| d_type := c_ctype c; d_name := nm (c_base c) n; d_init := None |}],
+       one_stmt (SFetch idiom (nm (c_base c) n) (c_ctype c) (c_bank c) (fetch_lines idiom (c_ctype c) (c_bank c))),
+       CMeth (CMeth (CVar (nm (c_base c) n)) true "at" (CCons (CInt (Z.of_nat i)) CNil)) (c_arrow c) m CNil,
+       S n)
   end.
 
 (* the type the translator assigns (most_accurate_type over int/double; comparisons are bool) *)
@@ -219,6 +225,7 @@ Fixpoint ex_type (e : ex) : string :=
   | ECount k => agg_type k
   | EBin o a b => if bop_is_cmp o then "bool"
                    else if String.eqb (ex_type a) "int" && String.eqb (ex_type b) "int" then "int" else "double"
+  | EIdx _ _ _ => "double"
   end.
 
 Definition col_name (n : nat) : string := nm "_col1" n.   (* = mem_name "col1" n *)
@@ -241,7 +248,7 @@ Inductive column :=
 Definition row := list (string * column).                      (* branch name, column *)
 
 Fixpoint ex_size (e : ex) : nat :=
-  match e with EInt _ => 0 | ECount k => 3 + gsize (k_guard k) + agg_nifs (k_agg k) | EBin _ a b => ex_size a + ex_size b end.
+  match e with EInt _ => 0 | ECount k => 3 + gsize (k_guard k) + agg_nifs (k_agg k) | EBin _ a b => ex_size a + ex_size b | EIdx _ _ _ => 1 end.
 Definition col_size (c : column) : nat :=
   match c with ColScalar e => ex_size e | ColVec _ g body => 2 + gsize g + nifs body | ColFirst _ g _ _ => 3 + gsize g end.
 Fixpoint row_size (r : row) : nat := match r with [] => 0 | (_, c) :: t => col_size c + row_size t end.
@@ -405,12 +412,34 @@ Definition dcount (ev : event) (k : cnt) : res value :=
   | Some VNull => RFault FNullDeref
   | Some _ => RStuck (KType "the bank does not hold a collection")
   end.
+(* an element by position: undefined (out of range) when the collection is shorter *)
+Definition didx (ev : event) (c : collref) (i : nat) (m : string) : res value :=
+  match assoc_ss (c_ctype c, c_bank c) (ev_colls ev) with
+  | None => RFault FRetrieve
+  | Some (VVec l) => match nth_error l i with Some v => call_method ev v m [] | None => RFault FOutOfRange end
+  | Some VNull => RFault FNullDeref
+  | Some _ => RStuck (KType "the bank does not hold a collection")
+  end.
 Fixpoint de (ev : event) (e : ex) : res value :=
   match e with
   | EInt z => ROk (VInt z)
   | ECount k => dcount ev k
   | EBin o a b => rdo x <- de ev a; rdo y <- de ev b; arith (op_str o) x y
+  | EIdx c i m => didx ev c i m
   end.
+(* The emitted code works in two phases: first the statements of every sub-expression (retrievals and loops, left to
+   right), then the value expression (where at() is evaluated).  `dstm` is what can go wrong in the first phase; `dex` is
+   the reference in the same two phases, so that WHICH fault an event raises when several partial operations are
+   undefined is the same as in the job.  dex and the ordinary evaluation de agree whenever either has a value
+   (FragProofs.dex_natural). *)
+Fixpoint dstm (ev : event) (e : ex) : res unit :=
+  match e with
+  | EInt _ => ROk tt
+  | ECount k => rdo _ <- dcount ev k; ROk tt
+  | EBin _ a b => rdo _ <- dstm ev a; dstm ev b
+  | EIdx c _ _ => match assoc_ss (c_ctype c, c_bank c) (ev_colls ev) with None => RFault FRetrieve | Some _ => ROk tt end
+  end.
+Definition dex (ev : event) (e : ex) : res value := rdo _ <- dstm ev e; de ev e.
 
 (* a vector column: the values of the body on the passing elements, in order, stored with the element type *)
 Fixpoint vec_loop (ev : event) (ty : string) (body : bexp) (ps : guard) (l : list value) (acc : list value) : res (list value) :=
@@ -450,11 +479,38 @@ Definition dcol (ev : event) (c : column) : res value :=
       | Some _ => RStuck (KType "the bank does not hold a collection")
       end
   end.
-Fixpoint drow (ev : event) (r : row) : res (list value) :=
+(* the ordinary evaluation of a row: column after column *)
+Fixpoint dnatrow (ev : event) (r : row) : res (list value) :=
   match r with
   | [] => ROk []
-  | (_, c) :: t => rdo v <- dcol ev c; rdo vs <- drow ev t; ROk (v :: vs)
+  | (_, c) :: t => rdo v <- dcol ev c; rdo vs <- dnatrow ev t; ROk (v :: vs)
   end.
+(* the row in the two phases of the emitted code: the statements of every column in order (a vector or First column is
+   complete after them; of a scalar column only its retrievals and loops have run), then the scalar columns' value
+   expressions in order.  Same rows as dnatrow whenever either has a value (FragProofs.drow_natural). *)
+Definition dcol1 (ev : event) (c : column) : res (option value) :=
+  match c with
+  | ColScalar e => rdo _ <- dstm ev e; ROk None
+  | _ => rdo v <- dcol ev c; ROk (Some v)
+  end.
+Definition dcol2 (ev : event) (c : column) (p : option value) : res value :=
+  match c, p with
+  | ColScalar e, _ => rdo v <- de ev e; ROk (conv (ex_type e) v)
+  | _, Some v => ROk v
+  | _, None => RStuck (KType "column value")
+  end.
+Fixpoint drow1 (ev : event) (r : row) : res (list (option value)) :=
+  match r with
+  | [] => ROk []
+  | (_, c) :: t => rdo p <- dcol1 ev c; rdo ps <- drow1 ev t; ROk (p :: ps)
+  end.
+Fixpoint drow2 (ev : event) (r : row) (ps : list (option value)) : res (list value) :=
+  match r, ps with
+  | [], _ => ROk []
+  | (_, c) :: t, p :: ps' => rdo v <- dcol2 ev c p; rdo vs <- drow2 ev t ps'; ROk (v :: vs)
+  | _ :: _, [] => RStuck (KType "row values")
+  end.
+Definition drow (ev : event) (r : row) : res (list value) := rdo ps <- drow1 ev r; drow2 ev r ps.
 
 (* when nothing faults, the streaming count is the length of the filtered list *)
 Definition passes_total (ev : event) (ps : guard) (l : list value) (f : value -> bool) : Prop :=
@@ -553,6 +609,11 @@ Fixpoint d_ex_fuel (fuel : nat) (s : sexp) : option ex :=
     | SList [SAtom "bin"; SAtom op; a; b] =>
         match bop_of op, d_ex_fuel f a, d_ex_fuel f b with
         | Some o, Some a', Some b' => Some (EBin o a' b') | _, _, _ => None end
+    | SList [SAtom "idx"; SAtom base; SAtom ct; SAtom bank; ar; i; SAtom m] =>
+        match d_bool ar, d_nat i with
+        | Some ar', Some i' => Some (EIdx {| c_base := base; c_ctype := ct; c_bank := bank; c_arrow := ar' |} i' m)
+        | _, _ => None
+        end
     | _ => None
     end
   end.
